@@ -25,6 +25,6 @@ Next == /\ ~done /\ done' = TRUE
         \* rule violations must be refused by the writer: wrong scan line, palette index out of range, layer list vs count
         /\ Emit(<<"bad-scan">>, << WriteCase(V(1, << Img(5, FALSE, 0) >>, <<>>)) >>)
         /\ Emit(<<"bad-pal">>, << WriteCase(V(1, << Img(5, TRUE, 1) >>, <<>>)), WriteCase(V(0, << Img(5, TRUE, 0) >>, <<>>)) >>)
-        /\ \A n \in {0, 1, 2, 126, 127} : \A extra \in {1, 2} : Emit(<<"bad-layers", n, extra>>, << WriteCase(V(0, <<>>, << Anim(<< F(n, 0, 0, extra) >>, 0) >>)) >>)
+        /\ \A n \in {0, 1, 2, 126, 127} : \A extra \in {1, 2, 128, 256, 512} : Emit(<<"bad-layers", n, extra>>, << WriteCase(V(0, <<>>, << Anim(<< F(n, 0, 0, extra) >>, 0) >>)) >>)
 Spec == Init /\ [][Next]_done
 ====
